@@ -20,7 +20,8 @@ Section Tdm.
 
   Inductive tcop : Type :=
   | TInit (raw : list E) (n_events_arg : option Z) (sel : option (list E -> list E))
-  | TSetN (n : Z).
+  | TSetN (n : Z)
+  | TSetEvents (evs : list E).             (* the public `events` setter: replaces _events only *)
 
   Definition tc_step (st : tcounts) (op : tcop) : tcounts :=
     match op with
@@ -34,6 +35,7 @@ Section Tdm.
         {| tc_n_events := Some n;
            tc_events := match sel with Some f => f raw | None => raw end |}
     | TSetN n => {| tc_n_events := Some n; tc_events := tc_events st |}
+    | TSetEvents evs => {| tc_n_events := tc_n_events st; tc_events := evs |}
     end.
 
   Definition tc_run (ops : list tcop) (st : tcounts) : tcounts := fold_left tc_step ops st.
@@ -67,6 +69,7 @@ Arguments tc_n_events {E} _.
 Arguments tc_events {E} _.
 Arguments TInit {E} _ _ _.
 Arguments TSetN {E} _.
+Arguments TSetEvents {E} _.
 Arguments tc_step {E} _ _.
 Arguments tc_run {E} _ _.
 Arguments tc_n_selected {E} _.
